@@ -171,7 +171,7 @@ func init() {
 		if err != nil {
 			panic("harness: bad int " + a[0])
 		}
-		return core.Hex([]byte(strconv.FormatInt(n, 10)))
+		return core.OkHex([]byte(strconv.FormatInt(n, 10)))
 	})
 	// C19.setting <type> <onFail> <default> <utf8> <b64>: does Acra's config loader accept the column, and which policy results
 	for _, db := range []string{"pg", "my"} {
